@@ -34,7 +34,15 @@ type rec struct {
 	nWH      int // number of WriteHeader calls
 	body     []byte
 	snapshot http.Header // header map as it was when the status was committed
+	noAppend bool
 }
+
+// appendingWriters: every recorder behaves like the ResponseWriter of a compression / logging layer: when the status is
+// committed it ADDS a value to the header fields that are there (Header.Add: an append to the slice the middleware put there).
+// What the client sees is recorded first; the appended values only exist so that a slice the library still uses - with spare
+// capacity behind it - is found out by what later responses look like.
+var appendingWriters = true
+var appendSeq atomic.Int64
 
 func newRec() *rec { return &rec{h: make(http.Header)} }
 
@@ -44,6 +52,13 @@ func (r *rec) WriteHeader(code int) {
 	if r.status == 0 {
 		r.status = code
 		r.snapshot = cloneHeader(r.h)
+		if appendingWriters && !r.noAppend {
+			// (another value each time: what one response leaves behind in shared storage differs from what the next one leaves)
+			n := appendSeq.Add(1)
+			for k, v := range r.h {
+				r.h[k] = append(v, "appended-by-the-writer-"+strconv.FormatInt(n, 10))
+			}
+		}
 	}
 }
 func (r *rec) Write(b []byte) (int, error) {
